@@ -121,6 +121,32 @@ CLAIMED = {
              "tied by the correspondence and the oracle (path walker over the complete database; retry loop run to convergence).",
         technique="Lean 4 proof (event-order invariant ReadsFirst, executor case analysis) + correspondence check with node removal",
         design_ref="6/C07"),
+    "C12": dict(
+        text="Theorems (all histories of set/delete/delete_subtrie on non-empty keys, all lookup keys, no bound) on the transcription "
+             "of _set/_set_kv_node (eight split cases)/_set_branch_node (both compressions): after any history get equals the map "
+             "model with the prefix rule (run_get): a non-empty store is refused iff a stored key is a proper prefix or extension "
+             "(set_override_iff), delete removes exactly its key and is refused only for an absent related key (bget_delete, "
+             "delete_override), delete_subtrie removes exactly the keys under the prefix and is refused only when it runs past a "
+             "stored key (bget_delete_subtrie, delete_subtrie_override); every reachable trie is canonical (canon_run) and canonical "
+             "tries with equal contents are equal (bcanon_unique), hence for EVERY hash function the root depends on the contents "
+             "only and is H(b'') when empty (root_depends_only_on_contents, root_empty); a raising call saved nothing "
+             "(raise_changes_nothing) and every node of a new trie is old or just saved (new_nodes_saved). That the kv/branch/leaf "
+             "byte encoding is the specified one is pinned by the independent canonical encoder of the harness and C16. Tie: outcome, "
+             "root, exact database, get/exists after every call; old roots re-read through the Lean Layer-D reader.",
+        technique="Lean 4 proof (case-for-case tree model, canonical-form uniqueness) + correspondence check",
+        design_ref="6/C12"),
+    "C16": dict(
+        text="Theorems for ALL inputs (no length bound) on the transcriptions of trie/utils/nibbles.py, binaries.py and the binary "
+             "half of nodes.py: encode_nibbles equals the Yellow Paper HP function written out literally, for every in-range nibble "
+             "sequence with/without terminator, and so does the tree model's hp (hp_is_yellow_paper, tree_hp_is_yellow_paper); "
+             "decode_nibbles inverts it incl. the flag (hp_decodes_back, terminator_flag); bytes<->nibbles and bytes<->bits are mutually "
+             "inverse (both directions; odd/out-of-range nibble lists refused with InvalidNibbles); the key-path packing round-trips "
+             "every bit string incl. the empty one (keypath_roundtrip); kv/branch/leaf encodings parse back to their parts; empty, "
+             "unknown-type and impossible-length nodes are rejected with InvalidNode (malformed_nodes_rejected); encoders refuse empty "
+             "paths/values and non-32-byte hashes; a hexary leaf/extension written with a path classifies as such and yields that "
+             "path (hexary_*). Tie: exhaustive small domains + random + malformed stream through the Python functions and the model.",
+        technique="Lean 4 proof (bit/byte arithmetic, structural induction) + exhaustive-small-domain correspondence check",
+        design_ref="6/C16"),
 }
 REASON_PENDING = "check not built yet in this revision (work in progress, see DESIGN.md section 10)"
 
